@@ -120,7 +120,7 @@ pub fn generate(seed: u64, idx: u64) -> Scenario {
             }
             (Some(text), 0..=8) => {
                 let mut cur = text.clone();
-                let k = *rng.pick(&[1usize, 1, 1, 1, 2, 3, 5, 0]); // 0: a version bump without content changes
+                let k = batch_size(&mut rng, &[1usize, 1, 1, 1, 2, 3, 5, 0]); // 0: a version bump without content changes
                 let mut edits = vec![];
                 for _ in 0..k {
                     let e = match rng.below(20) {
